@@ -301,6 +301,39 @@ def gen_graph(rng, nmax=10, cyclic=False, pools=True, validations=True, phony=Tr
     return "\n".join(lines) + "\n", {"builds": builds, "sources": sources, "pools": pool_decl, "all_outs": all_outs}
 
 
+def gen_validation_failure(rng, **kw):
+    """steps that *validate* (|@) the output of a step whose command fails, while they run or wait in a bounded pool and -k leaves
+    room: a validation edge is not a dependency - the validating steps and everything behind them must still be built (C05),
+    and the pool keeps counting them while they run (C04)"""
+    pools = [("p0", rng.choice([1, 1, 2]))]
+    lines = ["rule r", "  command = cmd $out $opts", "pool p0", "  depth = %d" % pools[0][1]]
+    nx = rng.randint(1, 2)
+    for i in range(nx):
+        lines += ["build x%d: r xs%d" % (i, i), "  opts = fail"]
+    nmem = rng.randint(2, 5)
+    for m in range(nmem):
+        real = rng.choice(["ms%d" % m, "slow", "ms%d slow" % m])
+        lines.append("build y%d: r %s |@ x%d" % (m, real, rng.randrange(nx)))
+        if rng.random() < 0.8:
+            lines.append("  pool = p0")
+        if rng.random() < 0.5:
+            lines.append("build z%d: r y%d" % (m, m))
+    lines.append("build slow: r slows")
+    text = "\n".join(lines) + "\n"
+    steps = ["file %s %s" % (hx("build.ninja"), hx(text))]
+    for n_ in ["xs%d" % i for i in range(nx)] + ["ms%d" % m for m in range(nmem)] + ["slows"]:
+        steps.append("file %s %s" % (hx(n_), hx("v0")))
+    invs = []
+    for r in range(rng.randint(1, 2)):
+        j = rng.choice([2, 3, 4])
+        k = rng.choice([None, 3, 5, 10])
+        targets = [] if rng.random() < 0.6 else ["y%d" % rng.randrange(nmem), "z0" if "build z0" in text else "y0"]
+        steps.append(inv_cmd(j, k, False, targets, gen_script(rng, rng.randint(2, 14), fail_rate=0, interrupt_rate=0)))
+        invs.append({"j": j, "k": k, "adopt": False, "targets": targets})
+        steps.append("touch %s" % hx("slows"))
+    return "\n".join(steps), invs, {"pools": pools}
+
+
 def gen_pool_stress(rng, **kw):
     """gates -> pool members: members become ready at different moments of the build, some of them up to date, while
     other members of the same bounded pool run or wait"""
@@ -412,6 +445,8 @@ def gen_sched_or_regen(rng, **kw):
         return "\n".join(steps), [{k: v for k, v in m.items() if k != "files"} for m in invs], info
     if rng.random() < 0.3:
         return gen_pool_stress(rng)
+    if rng.random() < 0.12:
+        return gen_validation_failure(rng)
     return gen_sched_scenario(rng, **kw)
 
 
@@ -637,6 +672,12 @@ def monitor_c05(run, where, inv, j, k, adopt=False):
         if not interrupted and (k is None or nfail < k):
             if running_at_end:
                 run.report_failure(None, "the invocation ended after a failure while commands %r were still running and the -k budget was not used up" % sorted(running_at_end), where)
+            really_failed = {ev[1] for ev in last["log"] if ev[0] == "finish" and ev[2] == 1}
+            for b, st in last["states"].items():
+                if st == "Failed" and b not in really_failed and not (g.transitive(b, g.ordering_producers) & really_failed):
+                    run.report_failure(None, "step %d was given up as failed although its command never failed and it needs no output of a failed "
+                                             "step (the -k budget was not used up)" % b, where)
+                    break
             failed_steps = {b for b, st in last["states"].items() if st == "Failed"}
             for b, st in last["states"].items():
                 if st in ("Done", "Failed"):
